@@ -63,9 +63,9 @@ Qed.
 
 Lemma heap_push_same_seq a b : h_seq (s_hdr a) = h_seq (s_hdr b) -> heap_push [a] b = [a; b].
 Proof.
-  intros E. unfold heap_push. cbn [length app sift_up Nat.sub Nat.div].
-  change (Nat.div 0 2) with 0%nat. cbn [get_or nth_error].
-  unfold seg_le. rewrite E, Z.eqb_refl. reflexivity.
+  intros E. unfold heap_push. cbv -[seg_le].
+  assert (H : seg_le b a = true) by (unfold seg_le; rewrite E, Z.eqb_refl; reflexivity).
+  rewrite H. reflexivity.
 Qed.
 
 Lemma heap_pop_two a b : heap_pop [a; b] = Some (a, [b]).
